@@ -685,8 +685,13 @@ class Daemon(object):
                 ser.register_type_replacement(type(obj_or_class), _pyro_obj_to_auto_proxy)
         # register the object/class in the mapping
         self.objectsById[obj_or_class._pyroId] = obj_or_class if not weak else weakref.ref(obj_or_class)
-        if weak: weakref.finalize(obj_or_class,self.unregister,objectId)
+        if weak: weakref.finalize(obj_or_class, self.__unregister_collected, objectId, self.objectsById[objectId])
         return uri
+
+    def __unregister_collected(self, objectId, ref):
+        # finalizer of a weakly registered object: the id may have been given to another object in the meantime
+        if self.objectsById.get(objectId) is ref:
+            self.unregister(objectId)
 
     def unregister(self, objectOrId):
         """
